@@ -87,16 +87,20 @@ CLAIMED = {
         technique='contract-based deductive verification (CBMC dfcc function + loop contracts on the extracted linearisation code; hand-derived Jacobian as postcondition)'),
     'C10': dict(
         category='proof',
-        text='Partial: the DISCRETE mechanisms of the property are under contract, its numerical core is not. (proof) Cluster::activeCov returns '
-             'exactly the sub-matrix of the currently active observations: dimension = live sum of active dimensions (independent of the '
-             'cached counters), band = min(band, N-1), every result cell inside the band equals the full-matrix element at the positions of '
-             'the two active components, every dropped cell is a structural zero of the full band; memory safe for all list lengths <= 1e6, '
-             'all active/passive patterns, dimensions 1..3, any band; Cluster::update counts observations, dimension and stored elements; '
-             'GKFparser::process_cov accepts exactly usable (dim, band) pairs and refuses the rest with a located error, finish_cov writes '
-             'every position of the announced band exactly once in the documented order and refuses too few / too many / malformed elements. '
-             'NOT decided: equivalence of the cluster with its whitened reformulation and agreement between algorithms (numerical); '
-             'positive-definiteness tests and the dim == number-of-observations test of finish_obs / finish_hdiffs / Homogenization::run '
-             '(try/catch and std containers, outside the extractor: their repairs are demonstrated natively only, demos/C10_*).',
+        text='Partial: the DISCRETE mechanisms of the property are under contract, its numerical core is not. (proof) Cluster::activeCov '
+             'returns exactly the sub-matrix of the currently active observations: dimension = live sum of active dimensions (independent '
+             'of the cached counters), band = min(band, N-1), every result cell inside the band equals the full-matrix element at the '
+             'positions of the two active components, every dropped cell is a structural zero of the full band; memory safe for all list '
+             'lengths <= 1e6, all active/passive patterns, dimensions 1..3, any band; Cluster::update counts observations, dimension and '
+             'stored elements; GKFparser::process_cov accepts exactly usable (dim, band) pairs and refuses the rest with a located error, '
+             'finish_cov writes every position of the announced band exactly once in the documented order and refuses too few / too many / '
+             'malformed elements. CovMat::cholDec (the positive-definiteness test behind every parser check and behind the dense '
+             'algorithms) refuses a matrix IF AND ONLY IF it meets a pivot that is not greater than its tolerance -- negative, zero and NaN '
+             'pivots alike -- and on normal return every pivot is > tolerance >= 0, for all dimensions and band widths (unbounded loop '
+             'contracts, unit covmat_proof). NOT decided: equivalence of the cluster with its whitened reformulation and agreement between '
+             'algorithms (numerical); the CALLS of that test and the dim == number-of-observations test in finish_obs / finish_hdiffs / '
+             'Homogenization::run (try/catch and std containers, outside the extractor: their repairs are demonstrated natively only, '
+             'demos/C10_*).',
         design_ref='DESIGN.md 5 (C10), 10.8',
         note=TRUST + '; std::list iteration of the cluster is lowered by unit rules to a walk over an array of observation records (loop bodies are the repository text); CovMat element access enters through the index contracts verified in unit matvec_index; observation dimension() is a per-object constant 1..3 (checked syntactically on every run)',
         technique='contract-based deductive verification (CBMC dfcc function + loop contracts with ghost prefix sums; z3 integer lemmas for the stored-element count)'),
@@ -132,8 +136,12 @@ CLAIMED = {
              'their source, negative sizes raise; CovMat::reset(d,b) yields the requested shape (all index fields and the packed size '
              'belong to (d,b)) from ANY earlier shape; element-wise kernels (scale, add, sub, mul, dot, set_all) raise exactly on '
              'non-conforming operands, stay inside the operands under every aliasing and add/sub are exact element-wise; SVD row tables '
-             '(min_x, reset_UWV) are memory-safe. Bounded only: CovMat::cholDec/solve exact on dim <= 3 (thorough), reset among shapes <= 8 '
-             '(quick companion). SVD reconstruction, Moore-Penrose conditions, inv(A)A = I are not decided (floating point, iterative).',
+             '(min_x, reset_UWV) are memory-safe; CovMat::cholDec / CovMat::solve / SymMat::cholDec / SymMat::solve (thorough) are '
+             'memory-safe, framed and terminate for ALL dimensions and band widths (unbounded loop contracts over opaque row-offset tables '
+             'whose closed forms are proved by z3), cholDec refuses exactly the non-positive (or NaN) pivots, solve raises BadRank for a '
+             'right-hand side of the wrong dimension. Bounded only: CovMat::cholDec/solve exact on dim <= 3 (thorough), reset among shapes '
+             '<= 8 (quick companion). SVD reconstruction, Moore-Penrose conditions, inv(A)A = I are not decided (floating point, '
+             'iterative).',
         design_ref='DESIGN.md 5 (C15)',
         note=TRUST + '; libc memcpy enters through an assumed contract (regions valid and disjoint, contents copied at a ghost index)',
         technique='contract-based deductive verification (CBMC dfcc contracts; z3 integer lemmas on the extracted index expressions)'),
